@@ -270,7 +270,10 @@ def core_history(rng, hid, n=None, cap=None, length=None, weights=None, idpool=N
             v1 = rng.pick(pres)
             v2 = rng.pick([x for x in pres if x != v1])
             used = t.labels.get(v1, [])
-            if used and (rng.chance(1, 4) or len(used) >= n):
+            again = [(a0, w0) for a0, w0 in t.edges.get(v1, {}).items() if w0 in t.present and w0 != v1]
+            if again and rng.chance(1, 8):
+                a, v2 = rng.pick(again)          # the very same edge once more (its target may be a new incarnation)
+            elif used and (rng.chance(1, 4) or len(used) >= n):
                 a = rng.pick(used)
             else:
                 a = t.free_label(rng, v1, labels)
@@ -349,6 +352,9 @@ ADVERSARY_PREFIXES = [
     ["ADD g 1", "ADD g 2", "BIND g 1 2 A0", "PUT g 1 V01", "PUT g 2 V02", "DATA g 1", "DATA g 1", "PUT g 1 V03"],
     # a datum read while ungrouped, then the vertex is bound and the group's real last datum is read
     ["ADD g 1", "PUT g 1 V01", "DATA g 1", "ADD g 2", "PUT g 2 V02", "BIND g 1 2 A0", "DATA g 2"],
+    # an edge across two groups, the target's group dies, the target is added again and the very same edge is bound again
+    ["ADD g 0", "ADD g 1", "ADD g 2", "ADD g 3", "BIND g 0 1 A0", "BIND g 2 3 A0", "BIND g 0 2 A1", "PUT g 3 V01", "DATA g 3",
+     "ADD g 2", "BIND g 0 2 A1", "PUT g 2 V02", "DATA g 2"],
     # a re-put after a read while another member still holds unread data
     ["ADD g 1", "ADD g 2", "ADD g 3", "BIND g 1 2 A0", "BIND g 1 3 A1", "PUT g 1 V01", "PUT g 2 V02", "DATA g 1", "PUT g 1 V03", "DATA g 2"],
 ]
@@ -389,13 +395,72 @@ def boundary_history(rng, hid):
                         idpool=pool, base=base, prefix=pre)
 
 
+def _cycle(rng, vs, n):
+    """one group over the (absent) ids vs: returns (build ops, read ops); build = adds, binds in random order and
+    direction forming one connected group, puts at random moments (before, between and after the binds, overwrites,
+    reads of ungrouped vertices); reads = first reads of every unread datum in random order (the last one collects)"""
+    build, unread = [], []
+    for v in vs:
+        build.append("ADD g %d" % v)
+    joined = [vs[0]]
+    nlab = {v: 0 for v in vs}
+
+    def maybe_put(pool, p=3):
+        if rng.chance(1, p):
+            v = rng.pick(pool)
+            build.append("PUT g %d %s" % (v, gen_data(rng)))
+            if v not in unread:
+                unread.append(v)
+            k = rng.below(8)
+            if k == 0:                      # overwrite
+                build.append("PUT g %d %s" % (v, gen_data(rng)))
+            elif k == 1 and v in joined and len(joined) > 1 and any(u != v and u in joined for u in unread):
+                build.append("DATA g %d" % v)   # read it while another member of the group still holds unread data
+                unread.remove(v)
+            elif k == 2 and v not in joined[1:] and len(joined) == 1:
+                build.append("DATA g %d" % v)  # read of a vertex that is still ungrouped
+                unread.remove(v)
+
+    maybe_put(vs)
+    for v in vs[1:]:
+        m = rng.pick(joined)
+        a, b = (m, v) if rng.chance(1, 2) else (v, m)
+        if nlab[a] >= n:
+            a, b = b, a
+        if nlab[a] >= n:
+            m2 = [x for x in joined if nlab[x] < n]
+            if not m2:
+                continue
+            a, b = m2[0], v
+        build.append("BIND g %d %d %s" % (a, b, lab_alpha(nlab[a])))
+        nlab[a] += 1
+        joined.append(v)
+        maybe_put(vs)
+    if rng.chance(1, 6):
+        build.append("ADD g %d" % rng.pick(joined))        # re-add of a present member
+    pool = [v for v in joined if len(joined) > 1]
+    if not unread or not any(v in joined for v in unread):
+        v = rng.pick(joined)
+        build.append("PUT g %d %s" % (v, gen_data(rng)))
+        if v not in unread:
+            unread.append(v)
+    reads = list(unread)
+    for k in range(len(reads) - 1, 0, -1):
+        kk = rng.below(k + 1)
+        reads[k], reads[kk] = reads[kk], reads[k]
+    # data held by vertices that never joined the group keeps them alive for ever: read the group's data last
+    reads = [v for v in reads if v not in joined] + [v for v in reads if v in joined]
+    return build, ["DATA g %d" % v for v in reads], [v for v in vs if v not in joined]
+
+
 def soak_history(rng, hid, cycles, bystanders=None):
     """hundreds of create / fill / read / collect cycles over a rotating id
-    pool with 0..13 other groups kept alive meanwhile"""
+    pool with 0..13 other groups kept alive meanwhile; one or two cycle groups alive at a time"""
     k = rng.below(14) if bystanders is None else bystanders
     n = rng.pick([1, 2, 4, 16])
-    pool = rng.pick([3, 4, 6, 9])
+    pool = rng.pick([4, 6, 8, 10])
     cap = 2 * k + pool + rng.below(3)
+    two = k <= 12 and pool >= 6 and rng.chance(1, 2)       # two cycle groups alive at a time
     ops = ["NEW g %d" % cap]
     for b in range(k):
         ops += ["ADD g %d" % (2 * b), "ADD g %d" % (2 * b + 1),
@@ -403,40 +468,38 @@ def soak_history(rng, hid, cycles, bystanders=None):
         if rng.chance(1, 2):
             ops.append("PUT g %d %s" % (2 * b + rng.below(2), gen_data(rng)))
     base = 2 * k
-    for c in range(cycles):
-        size = 2 if n == 1 or rng.chance(2, 3) else 3
-        size = min(size, pool)
-        start = rng.below(pool)
-        vs = [base + (start + j) % pool for j in range(size)]
-        for v in vs:
-            ops.append("ADD g %d" % v)
-        style = rng.below(6)
-        if style == 0:      # put before bind
-            ops.append("PUT g %d %s" % (vs[-1], gen_data(rng)))
-        if style == 4:      # a datum put and read while the vertex is still ungrouped
-            ops.append("PUT g %d %s" % (vs[0], gen_data(rng)))
-            ops.append("DATA g %d" % vs[0])
-        if style == 5:      # re-add of a present member-to-be, and of the collected ids later
-            ops.append("ADD g %d" % vs[0])
-        ops.append("BIND g %d %d %s" % (vs[0], vs[1], lab_alpha(0)))
-        if size == 3:
-            ops.append("BIND g %d %d %s" % (vs[0], vs[2], lab_alpha(1)) if n > 1 else
-                       "BIND g %d %d %s" % (vs[1], vs[2], lab_alpha(0)))
-        if style != 0:
-            ops.append("PUT g %d %s" % (vs[-1], gen_data(rng)))
-        if style == 2:      # overwrite
-            ops.append("PUT g %d %s" % (vs[-1], gen_data(rng)))
-        if style == 3:      # a second datum elsewhere, read first
-            ops.append("PUT g %d %s" % (vs[0], gen_data(rng)))
-            ops.append("DATA g %d" % vs[0])
-        ops.append("DATA g %d" % vs[-1])
-        if rng.chance(1, 8):
+    loose = set()          # ids that stayed ungrouped (never collected): not reused
+    c = 0
+    while c < cycles:
+        free = [base + j for j in range(pool) if base + j not in loose]
+        if len(free) < (4 if two else 2):
+            break
+        start = rng.below(len(free))
+        free = free[start:] + free[:start]
+        if two and len(free) >= 4:
+            sa = 2 + (rng.below(2) if len(free) >= 6 else 0)
+            sb = 2 + (rng.below(2) if len(free) >= sa + 3 else 0)
+            ba, ra, la = _cycle(rng, free[:sa], n)
+            bb, rb, lb = _cycle(rng, free[sa:sa + sb], n)
+            order = rng.below(3)
+            if order == 0:
+                ops += ba + bb + ra + rb            # the older group dies first
+            elif order == 1:
+                ops += ba + bb + rb + ra
+            else:
+                ops += ba + ra + bb + rb
+            loose.update(la + lb)
+            c += 2
+        else:
+            size = min(len(free), rng.pick([2, 2, 3, 4]))
+            b1, r1, l1 = _cycle(rng, free[:size], n)
+            ops += b1 + r1
+            loose.update(l1)
+            c += 1
+        if rng.chance(1, 6):
             ops.append("KEYS g")
-        if rng.chance(1, 16):
-            ops.append("DATA g %d" % vs[-1]) if False else None
-    ops = [o for o in ops if o]
     ops.append("KEYS g")
-    return History(hid, n, ops, {"cycles": cycles, "bystanders": k, "cap": cap, "n": n})
+    return History(hid, n, ops, {"cycles": c, "bystanders": k, "cap": cap, "n": n})
 
 
 def clone_history(rng, hid):
